@@ -72,7 +72,36 @@ func (p *Program) lemmaObligations(prop string) (items []specialItem, reps []*Fu
 				rep.Mode = "64-bit bit-vectors"
 			}
 			env := x.specEnv(st, st, nil, l.PkgPath)
-			conj := p.expandConj(l.Expr, 0)
+			body := stripParen(l.Expr)
+			// a top-level universal quantifier is skolemised (fresh constants), and the hypotheses of a
+			// top-level implication become path facts, so that each conjunct of the conclusion is its own obligation
+			if body.Op == "quant" && body.Name == "forall" {
+				for _, b := range body.Binders {
+					srt, elem, got := p.specSort(x.vc, l.PkgPath, b.Type)
+					if elem != "" {
+						panic(unsupported("contract: set-typed binder"))
+					}
+					c := Val{T: x.vc.fresh("sk_"+b.Name, srt), Sort: srt, GoT: got}
+					env.names[b.Name] = c
+					if got != nil && isInteger(got) && isUnsigned(got) {
+						x.assume(st, x.vc.cmp(">=", c.T, x.vc.intLit(0), true))
+					}
+				}
+				body = stripParen(body.Args[0])
+				if body.Op == "bin" && body.Name == "==>" {
+					for _, h := range p.expandConj(body.Args[0], 0) {
+						x.assume(st, env.boolean(h))
+					}
+					body = body.Args[1]
+				}
+			}
+			if st.pc != "true" {
+				o := &Obl{Name: name + "#vacuity", Class: "vacuity", PC: st.pc, Goal: "false", Func: name, Vacuity: true, Desc: "the hypotheses of the lemma are satisfiable", Pos: token.Position{Filename: l.File, Line: l.Line}}
+				x.vc.addObl(o)
+				items = append(items, specialItem{x.vc, o})
+				rep.NObl++
+			}
+			conj := p.expandConj(body, 0)
 			for j, cj := range conj {
 				g := env.boolean(cj)
 				on := name + "#lemma"
